@@ -3,6 +3,7 @@ package c16
 import (
 	"bytes"
 	"crypto"
+	"crypto/rsa"
 	"fmt"
 	"math/big"
 	"strings"
@@ -233,6 +234,8 @@ func envLabels(c envCase, r *h.Rec) {
 	for _, n := range c.Recips {
 		kinds[id(n).kind] = true
 		r.Label("recipient:%s", id(n).kind)
+		r.Label("recipient-key:%s", keyType(id(n)))
+		r.Label("pair:%s/%s/%s", c.Cipher, c.API, keyType(id(n)))
 	}
 	if len(kinds) > 1 {
 		r.Label("recipients:mixed-key-types")
@@ -374,8 +377,8 @@ func checkEnvelopeInner(c envCase, r *h.Rec) error {
 		ek := f[3].content
 		switch {
 		case who.kind == "rsa":
-			if len(ek) != 128 {
-				return fmt.Errorf("recipient info %d: RSA-1024 wrapped key has %d bytes: %s", i, len(ek), desc())
+			if want := (who.cert.PublicKey.(*rsa.PublicKey).N.BitLen() + 7) / 8; len(ek) != want {
+				return fmt.Errorf("recipient info %d: RSA wrapped key has %d bytes, modulus has %d: %s", i, len(ek), want, desc())
 			}
 		case legacy:
 			if len(ek) != 96+ci.c.KeySize() {
@@ -516,7 +519,7 @@ func checkEnvelopeInner(c envCase, r *h.Rec) error {
 
 var recipientPool = map[string][]string{
 	"sm2": {"sm2-0", "sm2-1", "sm2-2", "sm2-3", "sm2-4", "sm2-5", "sm2-direct"},
-	"rsa": {"rsa-0", "rsa-1", "rsa-2", "rsa-3", "rsa-4", "rsa-5"},
+	"rsa": {"rsa-0", "rsa-1", "rsa-2", "rsa-3", "rsa-4", "rsa-5", "rsa-2048"},
 }
 
 // outsiders returns up to n identities of the kind that are not excluded.
@@ -593,7 +596,7 @@ func TestC16_EnvelopeMatrix(t *testing.T) {
 		// recipient sets whose identifiers nearly coincide: key identifiers that
 		// differ in the last bit (sm2-2, sm2-3), the same serial number under
 		// different issuers (sm2-5, rsa-4), consecutive serial numbers under one issuer
-		for _, recips := range [][]string{{"sm2-2", "sm2-3"}, {"sm2-3", "sm2-2"}, {"sm2-5", "rsa-4"}, {"rsa-4", "sm2-5"}, {"sm2-0", "sm2-1", "sm2-2"}, {"rsa-2", "rsa-1", "rsa-0"}} {
+		for _, recips := range [][]string{{"sm2-2", "sm2-3"}, {"sm2-3", "sm2-2"}, {"sm2-5", "rsa-4"}, {"rsa-4", "sm2-5"}, {"sm2-0", "sm2-1", "sm2-2"}, {"rsa-2", "rsa-1", "rsa-0"}, {"rsa-2048"}, {"rsa-2048", "sm2-4", "rsa-3"}} {
 			for _, api := range envAPIs {
 				for _, cn := range []string{"sm4-cbc", "aes128-gcm"} {
 					i++
